@@ -311,6 +311,19 @@ func runC11(c *core.Ctx) {
 	for i := 0; i < nops; i++ {
 		li := r.Intn(len(live))
 		l := live[li]
+		if r.Chance(1, 25) {
+			// an unrelated, fresh zero-value Bimap joins (or replaces one of) the live ones:
+			// values of one type must not share anything, whatever the others did before
+			nl := &biLive{b: &maps.Bimap[int, string]{}, m: &bimodel{}}
+			br.hist = append(br.hist, "new zero-value Bimap")
+			if len(live) < 3 {
+				live = append(live, nl)
+			} else {
+				live[(li+1)%3] = nl
+			}
+			c.Count("fresh_bimaps_joined", 1)
+			continue
+		}
 		if r.Chance(1, 10) {
 			br.hist = append(br.hist, fmt.Sprintf("b%d.Clone()", li))
 			var cl maps.Bimap[int, string]
